@@ -139,8 +139,37 @@ def register(reg):
 
         return op
 
-    h2_op("initiate_connection", raises=False)
-    h2_op("increment_flow_control_window", argnames=("increment", "stream_id"))
+    @reg.method(X, "initiate_connection")
+    def initiate_connection(it, st, self_v, args, kwargs, node):
+        # SEND_SETTINGS is an input of the connection state machine: it is refused (ProtocolError) exactly when the
+        # machine is CLOSED (close_connection() / GOAWAY) - design_probes/p29
+        eng = it.eng
+        it.emit(st, "h2.initiate_connection", node, conn=self_v, held=list(st.held))
+        if eng.branch(st, eng.heap_read(st, self_v, "X.closed").t, f"h2-closed@{node.lineno}"):
+            eng.raise_(st, H2_PROTOCOL_ERROR, tag={"from": "h2.initiate_connection"})
+        bump(it, st, self_v)
+        q = eng.fresh(st, "int", "h2q")
+        eng.heap_write(st, self_v, "X.queue_ver", q)
+        return NONE
+    _incr_generic = h2_op("increment_flow_control_window", argnames=("increment", "stream_id"))
+
+    @reg.method(X, "increment_flow_control_window")
+    def increment_flow_control_window(it, st, self_v, args, kwargs, node):
+        # connection-level increment (no stream id): SEND_WINDOW_UPDATE is refused exactly when the connection state
+        # machine is CLOSED (the 2**24 increment used here cannot overflow the 2**31-1 window; audit/h2_contract.py
+        # clause 7).  Stream-level increments keep the generic "may raise a ProtocolError subclass".
+        eng = it.eng
+        data = dict(zip(("increment", "stream_id"), args))
+        data.update(kwargs)
+        if not isinstance(data.get("stream_id", NONE), VNone):
+            return _incr_generic(it, st, self_v, args, kwargs, node)
+        it.emit(st, "h2.increment_flow_control_window", node, conn=self_v, held=list(st.held), **data)
+        if eng.branch(st, eng.heap_read(st, self_v, "X.closed").t, f"h2-closed@{node.lineno}"):
+            eng.raise_(st, H2_PROTOCOL_ERROR, tag={"from": "h2.increment_flow_control_window"})
+        bump(it, st, self_v)
+        q = eng.fresh(st, "int", "h2q")
+        eng.heap_write(st, self_v, "X.queue_ver", q)
+        return NONE
     h2_op("send_data", argnames=("stream_id", "data"))
     h2_op("end_stream", argnames=("stream_id",))
     # acknowledge_received_data feeds no input to h2's state machines: it only raises ValueError for a
